@@ -8,6 +8,7 @@ import (
 	"os"
 	"os/exec"
 	"path/filepath"
+	"sort"
 	"strings"
 	"sync"
 	"time"
@@ -126,6 +127,16 @@ func renderQuery(o *obligation, withModel bool, extra []string) string {
 	if c.usesBits {
 		sb.WriteString(bitAxioms)
 	}
+	for _, name := range sortedIntKeys(c.wideBitFns) {
+		w := c.wideBitFns[name]
+		lim := pow2(w).String()
+		fmt.Fprintf(&sb, "(assert (forall ((a Int) (b Int)) (! (=> (and (<= 0 a) (< a %s) (<= 0 b) (< b %s)) (and (<= 0 (%s a b)) (< (%s a b) %s))) :pattern ((%s a b)))))\n", lim, lim, name, name, lim, name)
+		if strings.HasPrefix(name, "ixor") {
+			fmt.Fprintf(&sb, "(assert (forall ((a Int)) (! (= (%s a a) 0) :pattern ((%s a a)))))\n", name, name)
+			fmt.Fprintf(&sb, "(assert (forall ((a Int)) (! (= (%s a 0) a) :pattern ((%s a 0)))))\n", name, name)
+			fmt.Fprintf(&sb, "(assert (forall ((a Int)) (! (= (%s 0 a) a) :pattern ((%s 0 a)))))\n", name, name)
+		}
+	}
 	for _, f := range c.facts {
 		if needed[f.sym] {
 			sb.WriteString("(assert ")
@@ -159,6 +170,15 @@ func renderQuery(o *obligation, withModel bool, extra []string) string {
 		}
 	}
 	return sb.String()
+}
+
+func sortedIntKeys(m map[string]int) []string {
+	var ks []string
+	for k := range m {
+		ks = append(ks, k)
+	}
+	sort.Strings(ks)
+	return ks
 }
 
 type solveResult struct {
